@@ -41,7 +41,13 @@ var metaRefs = []string{
 
 // injectMetaRefs turns some leaf schemas into references to the built-in meta-schemas (whole
 // documents and members), which every call resolves from the package-level cache.
-func injectMetaRefs(w *model.World, r *sim.RNG) {
+func injectMetaRefs(w *model.World, r *sim.RNG) { injectRefs(w, r, metaRefs) }
+
+// the draft-04 meta-schema only (small): for runs under the race detector
+var metaRefsSmall = []string{"http://json-schema.org/draft-04/schema#", "http://json-schema.org/draft-04/schema#/definitions/positiveInteger",
+	"http://json-schema.org/draft-04/schema#/properties/title", "http://json-schema.org/draft-04/schema#/definitions/schemaArray"}
+
+func injectRefs(w *model.World, r *sim.RNG, metaRefs []string) {
 	var visit func(v interface{})
 	visit = func(v interface{}) {
 		switch c := v.(type) {
